@@ -8,7 +8,9 @@ is undefined), 6.5.3.2 (`&`, `*`), 6.5.4 (a cast yields the unqualified version 
 (pointer + integer has the type of the pointer operand), 6.7.2.1p5 (a bit-field of atomic type is
 implementation-defined: here a constraint violation, as in gcc and clang and now in chibicc), 6.7.2.4p3 (`_Atomic(T)`:
 T not an array, function, atomic or qualified type), 6.7.3p3 (the `_Atomic` qualifier shall not modify an array or
-function type), 6.7.6 (declarators: `T D` where D is `* D1`, `D1[n]`, `D1(...)`, `(D1)`), 6.7.8 (a typedef name
+function type), 6.7.6 (declarators: `T D` where D is `* type-qualifier-list D1`, `D1[n]`, `D1(...)`, `(D1)`), 6.7.6.1p1
+(for each type qualifier in the list after `*`, the identifier is a so-qualified POINTER: `int *_Atomic p` declares an
+atomic pointer to a plain `int`; 6.7.3p5: a qualifier that appears more than once counts once), 6.7.8 (a typedef name
 denotes the type), 6.9.1/6.7.6.3p7-8 (parameters of array / function type are adjusted to pointers);
 C23 6.7.2.5 for `typeof` (type-name operand: that type; expression operand: the type of the expression, no lvalue
 conversion, so an `_Atomic` lvalue keeps its qualifier).
@@ -20,7 +22,7 @@ pointer-to-element).  The property theorem quantifies over the programs for whic
 import ChibiVerif.Model.C16Qual
 
 namespace ChibiVerif.C16QualSpec
-open ChibiVerif.C16Qual (Prim Declr TSpec Expr Decl MemberDecl UpdOp)
+open ChibiVerif.C16Qual (Prim PQual Declr TSpec Expr Decl MemberDecl UpdOp)
 
 /-- a C type; `atomic` = `_Atomic`-qualified (or specified with `_Atomic( )`) at this level.  Array and function
     types have no such flag: the standard forbids it (6.7.3p3, 6.7.2.4p3). -/
@@ -69,11 +71,14 @@ structure SEnv where
   tags : List (String × Bool × List SMember) := []
   deriving Inhabited
 
-/-- 6.7.6: the type `T D` gives the identifier -/
+/-- 6.7.6: the type `T D` gives the identifier.  `* type-qualifier-list D1` (6.7.6.1p1): "type-qualifier-list pointer to
+    T" - the pointer is `_Atomic`-qualified iff `_Atomic` occurs in the list (anywhere, any number of times; `const`,
+    `volatile` and the `restrict` spellings do not bear on atomicity.  Their own constraints - `restrict` needs a pointer
+    to an object type, 6.7.3p2 - are not specified here). -/
 def declType : Declr → CType → CType
   | .name, t => t
   | .paren d, t => declType d t
-  | .ptr d, t => declType d (.ptr t false)
+  | .ptr d qs, t => declType d (.ptr t (qs.contains .atomic))
   | .arr d n, t => declType d (.arr t n)
   | .fn d, t => declType d (.fn t)
 
